@@ -84,7 +84,10 @@ func (i ImportNames) TypeName(t types.Type) string {
 		}
 		return typ.Obj().Name()
 	default:
-		return t.String()
+		// A composite type: name the types it is made of the same way.
+		return types.TypeString(t, func(pkg *types.Package) string {
+			return i[pkg.Path()]
+		})
 	}
 }
 
